@@ -57,41 +57,7 @@ func c14(c *Ctx) {
 			c.fail(r, construct, c.pos(in.Pos()), "DiscardUpto called from "+owner+", which is not an allowed truncation site")
 		}
 	}
-	if f := c.mustFn(r, storeT+"TruncateUptoTx"); f != nil {
-		emb := whenCond(false, func(a string) bool { return hasFieldSuffix(a, "embeddedValues") })
-		for _, p := range []struct {
-			n string
-			p sitePred
-		}{{"fetchVLog", callTo(storeT + "fetchVLog")}, {"DiscardUpto", callTo(appDiscard)}} {
-			q := &pathQ{fn: f, fromEntry: true, to: p.p, barrier: emb}
-			c.check(len(sites(f, p.p)) > 0 && q.bypass() == nil, r, fnName(f)+":"+p.n+":only-without-embedded-values", c.pos(f.Pos()),
-				p.n+" is dominated by the embeddedValues==false edge", p.n+" reachable with embedded values (the tx log would be discarded)")
-		}
-		// the forward walk covers everything up to the last committed tx
-		c.check(len(sites(f, callTo(storeT+"LastCommittedTxID"))) > 0, r, fnName(f)+":forward-walk-to-committed-frontier", c.pos(f.Pos()),
-			"forward walk is bounded by LastCommittedTxID()", "TruncateUptoTx no longer walks forward to the committed frontier")
-		c.ruleOrder(r, f, "LastCommittedTxID", callTo(storeT+"LastCommittedTxID"), "DiscardUpto", callTo(appDiscard), nil, 1)
-		// the forward walk is inclusive of the last committed tx and bounded by nothing smaller
-		inclusive := false
-		allInstrs(f, false, func(in ssa.Instruction) {
-			if ifi, ok := in.(*ssa.If); ok {
-				a, _ := normCond(ifi.Cond)
-				if strings.HasPrefix(a, "(call:embedded/store.(*ImmuStore).LastCommittedTxID[") && strings.Contains(a, "] < phi(") {
-					inclusive = true // j <= LastCommittedTxID()  ==  !(LastCommittedTxID() < j)
-				}
-				if strings.HasPrefix(a, "(phi(") && strings.Contains(a, " < (call:embedded/store.(*ImmuStore).LastCommittedTxID[") && strings.HasSuffix(a, "+ const:1))") {
-					inclusive = true // j < LastCommittedTxID()+1
-				}
-			}
-		})
-		c.check(inclusive, r, fnName(f)+":forward-walk-inclusive-of-committed-frontier", c.pos(f.Pos()),
-			"forward loop continues while j <= LastCommittedTxID()", "the forward walk of TruncateUptoTx is no longer `j <= LastCommittedTxID()`: later transactions' values may be discarded")
-		// errors of both walks abort the truncation
-		for i, in := range f.AnonFuncs {
-			_ = i
-			_ = in
-		}
-	}
+	c14TruncateRules(c, r)
 
 	// ---- C14.3 chunk deletion strictly below the chunk of the offset ---------------------------------
 	c14DiscardGuard(c, "C14.3/discard-guard")
@@ -193,4 +159,45 @@ func c09ValueDigest(c *Ctx, r string, f *ssa.Function) {
 			c.ok(r, fnName(f)+":value-"+g.n+"-checked", c.pos(f.Pos()), "every successful return crosses the "+g.n+"-match edge or the skip flag")
 		}
 	}
+}
+
+// c14TruncateRules: TruncateUptoTx never runs with embedded values, and its forward walk covers every transaction
+// up to and including the committed frontier (shared by C14 and C02).
+func c14TruncateRules(c *Ctx, r string) {
+	if f := c.mustFn(r, storeT+"TruncateUptoTx"); f != nil {
+		emb := whenCond(false, func(a string) bool { return hasFieldSuffix(a, "embeddedValues") })
+		for _, p := range []struct {
+			n string
+			p sitePred
+		}{{"fetchVLog", callTo(storeT + "fetchVLog")}, {"DiscardUpto", callTo(appDiscard)}} {
+			q := &pathQ{fn: f, fromEntry: true, to: p.p, barrier: emb}
+			c.check(len(sites(f, p.p)) > 0 && q.bypass() == nil, r, fnName(f)+":"+p.n+":only-without-embedded-values", c.pos(f.Pos()),
+				p.n+" is dominated by the embeddedValues==false edge", p.n+" reachable with embedded values (the tx log would be discarded)")
+		}
+		// the forward walk covers everything up to the last committed tx
+		c.check(len(sites(f, callTo(storeT+"LastCommittedTxID"))) > 0, r, fnName(f)+":forward-walk-to-committed-frontier", c.pos(f.Pos()),
+			"forward walk is bounded by LastCommittedTxID()", "TruncateUptoTx no longer walks forward to the committed frontier")
+		c.ruleOrder(r, f, "LastCommittedTxID", callTo(storeT+"LastCommittedTxID"), "DiscardUpto", callTo(appDiscard), nil, 1)
+		// the forward walk is inclusive of the last committed tx and bounded by nothing smaller
+		inclusive := false
+		allInstrs(f, false, func(in ssa.Instruction) {
+			if ifi, ok := in.(*ssa.If); ok {
+				a, _ := normCond(ifi.Cond)
+				if strings.HasPrefix(a, "(call:embedded/store.(*ImmuStore).LastCommittedTxID[") && strings.Contains(a, "] < phi(") {
+					inclusive = true // j <= LastCommittedTxID()  ==  !(LastCommittedTxID() < j)
+				}
+				if strings.HasPrefix(a, "(phi(") && strings.Contains(a, " < (call:embedded/store.(*ImmuStore).LastCommittedTxID[") && strings.HasSuffix(a, "+ const:1))") {
+					inclusive = true // j < LastCommittedTxID()+1
+				}
+			}
+		})
+		c.check(inclusive, r, fnName(f)+":forward-walk-inclusive-of-committed-frontier", c.pos(f.Pos()),
+			"forward loop continues while j <= LastCommittedTxID()", "the forward walk of TruncateUptoTx is no longer `j <= LastCommittedTxID()`: later transactions' values may be discarded")
+		// errors of both walks abort the truncation
+		for i, in := range f.AnonFuncs {
+			_ = i
+			_ = in
+		}
+	}
+
 }
